@@ -802,7 +802,7 @@ Definition live (f : forest) (x : id) : bool := mem x (ids_f f).
 (* The reference step.  None = the reference says nothing about this edit:
    - a node that is not (or no longer: pruned away) part of the forest;
    - append/insert of a node that still has a parent, or into its own subtree;
-     insert outside 0..len;
+     (insert positions follow list.insert: negative from the end, clamped);
    - remove(child) on an element that is not the child's parent;
    - replaceChild whose content is not made of distinct nodes other than the
      child, or contains a child of the same parent (the position is then
@@ -823,8 +823,7 @@ Definition ref_step (rs : rstate) (o : op) : option (rstate * result) :=
                       | Some f' => ref_place f' p x (length (kids_ids f' p))
                       | None => None
                       end) xs (if live f p then Some f else None)) RNone
-  | OInsert p x idx =>
-    if (0 <=? idx)%Z then ret (ref_place f p x (Z.to_nat idx)) RNone else None
+  | OInsert p x idx => ret (ref_place f p x (py_pos idx (length (kids_ids f p)))) RNone
   | ORemove p x =>
     if mem x (kids_ids f p) then ret (ref_detach f x) (RNodes [x]) else None
   | ODetach x => ret (ref_detach f x) (RNodes [x])
@@ -1006,10 +1005,22 @@ Fixpoint sem_eqb (a b : sem) : bool :=
 (* the predicates the harness evaluates                                *)
 (* ------------------------------------------------------------------ *)
 
-(* what the harness saw after one step: the value returned, every Element object
-   it holds (id order; parent and children walked through the object links and
-   mapped back to ids by identity), plain() of every parentless element *)
-Record obs := mkO { o_res : result; o_dump : list (id * cell); o_plain : list (id * str) }.
+(* What the harness saw after one step: the value returned; how many Element
+   objects it holds; for every object whose picture changed (all of them after
+   the first step) its parent and children -- walked through the object links and
+   mapped back to ids by identity -- and its own fields; the ids of the parentless
+   objects; plain() of those whose text changed.  The pictures accumulate in a
+   view (newest first). *)
+Record obs := mkO { o_res : result; o_count : N; o_delta : list (id * cell);
+                    o_roots : list id; o_plain : list (id * str) }.
+Record view := mkV { v_cells : list (id * cell); v_plains : list (id * str) }.
+Definition view_add (v : view) (o : obs) : view :=
+  mkV (o_delta o ++ v_cells v) (o_plain o ++ v_plains v).
+Fixpoint plookup (l : list (id * str)) (i : id) : option str :=
+  match l with
+  | [] => None
+  | (j, p) :: l' => if N.eqb j i then Some p else plookup l' i
+  end.
 
 Record ccase := mkCase {
   k_quirk : bool;                      (* Attribute.__eq__ as probed *)
@@ -1020,35 +1031,51 @@ Record ccase := mkCase {
 Fixpoint nseq (start : N) (len : nat) : list N :=
   match len with O => [] | S l => start :: nseq (N.succ start) l end.
 
-Definition dump_matches_store (s : store) (o : obs) : bool :=
-  list_eqb N.eqb (map fst (o_dump o)) (nseq 0 (N.to_nat (s_next s))) &&
-  forallb (fun ic : id * cell => match get s (fst ic) with
-                                 | Some c => cell_eqb c (snd ic)
-                                 | None => false
-                                 end) (o_dump o) &&
-  forallb (fun ip : id * str => str_eqb (plain_of s (fst ip)) (snd ip)) (o_plain o).
+Definition view_matches_store (s : store) (v : view) (o : obs) : bool :=
+  N.eqb (s_next s) (o_count o) &&
+  forallb (fun i => match get s i, lookup (v_cells v) i with
+                    | Some c, Some c' => cell_eqb c c'
+                    | _, _ => false
+                    end) (nseq 0 (N.to_nat (s_next s))) &&
+  forallb (fun r => match plookup (v_plains v) r with
+                    | Some p => str_eqb (plain_of s r) p
+                    | None => false
+                    end) (o_roots o).
 
-Fixpoint agrees_from (q : bool) (s : store) (steps : list (op * obs)) : bool :=
+Fixpoint agrees_from (q : bool) (s : store) (v : view) (steps : list (op * obs)) : bool :=
   match steps with
   | [] => true
   | (o, ob) :: rest =>
     let (s', r) := step q s o in
-    result_eqb r (o_res ob) && dump_matches_store s' ob && agrees_from q s' rest
+    let v' := view_add v ob in
+    result_eqb r (o_res ob) && view_matches_store s' v' ob && agrees_from q s' v' rest
   end.
 
 (* model = implementation, after every step *)
 Definition c19_agrees (c : ccase) : bool :=
-  agrees_from (k_quirk c) (run (k_quirk c) empty_store (k_setup c)) (k_steps c).
+  agrees_from (k_quirk c) (run (k_quirk c) empty_store (k_setup c)) (mkV [] []) (k_steps c).
 
-Definition dump_meets_reference (rs : rstate) (o : obs) : bool :=
+Definition view_meets_reference (rs : rstate) (v : view) (o : obs) : bool :=
   let f := r_forest rs in
-  forallb (fun i => match cell_f None f i, lookup (o_dump o) i with
+  forallb (fun i => match cell_f None f i, lookup (v_cells v) i with
                     | Some c, Some c' => cell_eqb c c'
                     | _, _ => false
                     end) (ids_f f) &&
-  forallb (fun ip : id * str => negb (live f (fst ip)) || str_eqb (ref_plain f (fst ip)) (snd ip))
-          (o_plain o) &&
-  forallb (fun i => existsb (fun ip : id * str => N.eqb (fst ip) i) (o_plain o)) (roots f).
+  forallb (fun r => mem r (o_roots o) &&
+                    match plookup (v_plains v) r with
+                    | Some p => str_eqb (ref_plain f r) p
+                    | None => false
+                    end) (roots f).
+
+(* names as the constructor splits them: no colon in a prefix, and none in the
+   local name of an element without prefix (Element(qname) would split it again) *)
+Definition named_ok (d : ndata) : bool :=
+  let '(p, n) := split_prefix (qname_of (d_prefix d) (d_name d)) in
+  ostr_eqb p (d_prefix d) && str_eqb n (d_name d).
+Fixpoint well_named_t (t : tree) : bool :=
+  match t with T _ d k => named_ok d && well_named_f k end
+with well_named_f (f : forest) : bool :=
+  match f with F0 => true | F1 t f' => well_named_t t && well_named_f f' end.
 
 (* a clone is an equal tree made of new nodes, and nothing else moved *)
 Definition clone_ok (rs rs' : rstate) (o : op) : bool :=
@@ -1056,21 +1083,31 @@ Definition clone_ok (rs rs' : rstate) (o : op) : bool :=
   | OClone x =>
     match find_f (r_forest rs) x, r_forest rs' with
     | Some tx, F1 t' _ =>
-      sem_eqb (sem_t [] t') (sem_t (rpchain (r_forest rs) x) tx) &&
+      (negb (well_named_t tx) || sem_eqb (sem_t [] t') (sem_t (rpchain (r_forest rs) x) tx)) &&
       forallb (fun i => (r_next rs <=? i)%N) (ids_t t')
     | _, _ => false
     end
   | _ => true
   end.
 
-Fixpoint spec_from (rs : rstate) (steps : list (op * obs)) : bool :=
+Definition is_lookup (o : op) : bool :=
+  match o with
+  | OGetChild _ _ _ | OGetChildren _ _ _ | OChildAtPath _ _ | OChildrenAtPath _ _
+  | OGetAttr _ _ _ | ONamespace _ => true
+  | _ => false
+  end.
+
+Fixpoint spec_from (rs : rstate) (v : view) (steps : list (op * obs)) : bool :=
   match steps with
   | [] => true
   | (o, ob) :: rest =>
+    let v' := view_add v ob in
     match ref_step rs o with
-    | None => true                       (* outside the reference's domain: no claim from here on *)
+    | None => if is_lookup o then spec_from rs v' rest   (* no claim about this lookup *)
+              else true            (* an edit outside the reference's domain: no claim from here on *)
     | Some (rs', r) =>
-      result_eqb r (o_res ob) && dump_meets_reference rs' ob && clone_ok rs rs' o && spec_from rs' rest
+      result_eqb r (o_res ob) && view_meets_reference rs' v' ob && clone_ok rs rs' o &&
+      spec_from rs' v' rest
     end
   end.
 
@@ -1078,7 +1115,7 @@ Fixpoint spec_from (rs : rstate) (steps : list (op * obs)) : bool :=
 Definition c19_spec_ok (c : ccase) : bool :=
   match ref_run empty_rstate (k_setup c) with
   | None => true
-  | Some rs => spec_from rs (k_steps c)
+  | Some rs => spec_from rs (mkV [] []) (k_steps c)
   end.
 
 (* how many steps of the case the reference covers (for the harness' statistics) *)
@@ -1086,7 +1123,7 @@ Fixpoint covered_from (rs : rstate) (steps : list (op * obs)) : nat :=
   match steps with
   | [] => O
   | (o, _) :: rest => match ref_step rs o with
-                      | None => O
+                      | None => if is_lookup o then covered_from rs rest else O
                       | Some (rs', _) => S (covered_from rs' rest)
                       end
   end.
@@ -1094,4 +1131,18 @@ Definition c19_covered (c : ccase) : nat :=
   match ref_run empty_rstate (k_setup c) with
   | None => O
   | Some rs => covered_from rs (k_steps c)
+  end.
+Fixpoint inside_from (rs : rstate) (steps : list (op * obs)) : bool :=
+  match steps with
+  | [] => true
+  | (o, _) :: rest => match ref_step rs o with
+                      | None => if is_lookup o then inside_from rs rest else false
+                      | Some (rs', _) => inside_from rs' rest
+                      end
+  end.
+(* every edit of the case is inside the reference's domain *)
+Definition c19_inside (c : ccase) : bool :=
+  match ref_run empty_rstate (k_setup c) with
+  | None => false
+  | Some rs => inside_from rs (k_steps c)
   end.
